@@ -135,6 +135,17 @@ impl Sys {
         assert!(self.q.time() == d(self.m.cur), "C01 queue time == last fetched timestamp");
         self.check_len();
     }
+    /// non-destructive look at the next timestamp (used by the runtime to check limits)
+    fn peek(&mut self) {
+        let t = self.q.next_time();
+        if self.m.len() == 0 {
+            assert!(t.is_none(), "C01 next_time of an empty queue is None");
+        } else {
+            assert!(t == Some(d(self.m.min_time())), "C01 next_time is the timestamp the next fetch will return");
+        }
+        self.check_len();
+        assert!(self.q.time() == d(self.m.cur), "C01 looking at the next timestamp does not advance the queue's clock");
+    }
     fn cancel(&mut self, i: usize) {
         if let Some(h) = self.h[i].take() {
             self.q.cancel(h);
@@ -268,6 +279,39 @@ fn cancel1(n: usize, t: u32, tmax: u32) {
     s.finish();
 }
 
+/// add, add, fetch, cancel the event that is still pending: the clock now sits at an arbitrary
+/// position inside a bucket window, the cancelled event in any (other) bucket
+fn cancel_after_fetch(n: usize, t: u32, tmax: u32) {
+    let mut s = Sys::new(n, t, false);
+    let a = s.any_time(tmax);
+    s.add(a);
+    let b = s.any_time(tmax);
+    s.add(b);
+    s.fetch();
+    let i = if s.m.ev[0].state == 1 { 0 } else { 1 };
+    kani::cover!(s.m.ev[i].time > s.m.cur + t, "REACH cancel of an event more than one bucket ahead of an unaligned clock");
+    s.cancel(i);
+    assert!(s.q.is_empty(), "C01 queue empty after fetching one and cancelling the other event");
+    s.finish();
+}
+
+/// add, add, fetch, PEEK, add(c >= current time, possibly earlier than the peeked event), drain:
+/// peeking must not change what later operations do
+fn peek_add(n: usize, t: u32, tmax: u32) {
+    let mut s = Sys::new(n, t, false);
+    let a = s.any_time(tmax);
+    s.add(a);
+    let b = s.any_time(tmax);
+    s.add(b);
+    s.fetch();
+    s.peek();
+    let c = s.any_time(tmax);
+    s.add(c);
+    kani::cover!(s.m.len() == 2 && c < s.m.ev[0].time.max(s.m.ev[1].time) && c > s.m.cur, "REACH event added between the current time and the peeked event");
+    s.drain();
+    s.finish();
+}
+
 /// symbolic script of `ops` operations
 fn script(n: usize, t: u32, tmax: u32, ops: usize, strict: bool) {
     let mut s = Sys::new(n, t, strict);
@@ -295,6 +339,10 @@ cq_harness!(c01_cancel2_n2t1, 5, cancel2(2, 1, 4));
 cq_harness!(c01_cancel1_n2t2, 5, cancel1(2, 2, 5));
 cq_harness!(c01_cancel1_n2t1, 5, cancel1(2, 1, 4));
 cq_harness!(c01_cancel1_n3t1, 5, cancel1(3, 1, 4));
+cq_harness!(c01_cancel_after_fetch_n2t2, 5, cancel_after_fetch(2, 2, 7));
+cq_harness!(c01_cancel_after_fetch_n3t2, 5, cancel_after_fetch(3, 2, 7));
+cq_harness!(c01_peek_add_n2t1, 5, peek_add(2, 1, 4));
+cq_harness!(c01_peek_add_n1t2, 5, peek_add(1, 2, 5));
 cq_harness!(c01_script4_n1t2, 5, script(1, 2, 5, 4, false));
 cq_harness!(c01_script4_n2t1, 5, script(2, 1, 4, 4, false));
 cq_harness!(c01_script5_n2t2, 5, script(2, 2, 5, 5, false));
